@@ -374,7 +374,7 @@ func Slots(p *core.Prog, r *core.Report) {
 		nSlots += len(m)
 	}
 	r.Count("slot_fields", nSlots)
-	r.Floor("slot_fields", 8)
+	r.Floor("slot_fields", 6)
 	prune := core.OnlyWhenPathTrue(recycleSuffix)
 	wrappers := si.releaseWrappers(p)
 
@@ -493,8 +493,8 @@ func Slots(p *core.Prog, r *core.Report) {
 	}
 	r.Count("slot_child_runs", nRun)
 	r.Count("slot_child_releases", nRel)
-	r.Floor("slot_child_runs", 10)
-	r.Floor("slot_child_releases", 12)
+	r.Floor("slot_child_runs", 7)
+	r.Floor("slot_child_releases", 8)
 
 	slotInit(p, r, si)
 	selfRedeem(p, r, si)
